@@ -40,7 +40,8 @@ def run(run):
 
 
 def guard_placement(run, f, lc):
-    news = [(b, k) for b, k in all_calls(f) if callee(k.term) == GUARD + "::<'a>::new" or (fn_of(k).get("name") == "new" and "MessageProcessingGuard" in (fn_of(k).get("def") or ""))]
+    gn = _guard_new(f)
+    news = [(b, k) for b, k in all_calls(f) if gn is not None and callee(k.term) == gn.defn]
     news = [(b, k) for b, k in news if not b.name.startswith("metrics::collector::tests")]
     if not run.require(len(news) == 1 and news[0][0].name == lc.body.name, "O20.1", "guard-new-sites", "MessageProcessingGuard::new is called at %s" % [(b.name, loc_of(b, k)) for b, k in news],
                        "one MessageProcessingGuard::new call, in the lifecycle loop"):
@@ -101,19 +102,33 @@ def guard_records_once(run, f):
         if dur_ok:
             src = strip_refs(tr.norm(tr.call_args(dur[1])[0]))
             ga = f.adts.get(GUARD)
-            dur_ok = src[0] == "field" and ga is not None and ga["variants"][0]["fields"][src[1]]["name"] == "start"
+            dur_ok = src[0] == "field" and ga is not None and f.ty(ga["variants"][0]["fields"][src[1]]["ty"]).is_adt("std::time::Instant")
     run.require(okr and dur_ok, "O20.2", "drop-records-once", "MessageProcessingGuard::drop does not call record_message(self.start.elapsed()) exactly once on every path", "record_message(self.start.elapsed()) once")
-    nb = f.body(GUARD + "::<'a>::new")
+    nb = _guard_new(f)
     if run.require(nb is not None, "O20.2", "guard-new-body", "MessageProcessingGuard::new not found", "found"):
         ntr = tracer_of(nb)
         ret = strip_wrappers(ntr.norm(ntr.local(0)))
         oks = ret[0] == "agg" and ret[1][0] == "adt" and ret[1][1] == GUARD
         if oks:
-            names = ret[1][3]
-            st = strip_wrappers(ret[2][names.index("start")])
-            co = strip_wrappers(ret[2][names.index("collector")])
-            oks = st[0] == "call" and st[2].endswith("Instant::now") and co == ("param", 1)
+            # the guard's two fields, identified by type (their names are private): the clock reading and the collector
+            ga = f.adts.get(GUARD)
+            tys = [f.ty(fl["ty"]) for fl in ga["variants"][0]["fields"]]
+            si = [i for i, t in enumerate(tys) if t.is_adt("std::time::Instant")]
+            ci = [i for i, t in enumerate(tys) if t.peel_refs().is_adt(MC)]
+            oks = len(si) == 1 and len(ci) == 1
+            if oks:
+                st = strip_wrappers(ret[2][si[0]])
+                co = strip_wrappers(ret[2][ci[0]])
+                oks = st[0] == "call" and st[2].endswith("Instant::now") and co == ("param", 1)
         run.require(oks, "O20.2", "guard-new-starts-clock", "MessageProcessingGuard::new does not store (collector, Instant::now())", "start = Instant::now(), collector = the argument")
+
+
+def _guard_new(f):
+    """The constructor of the guard: the public inherent fn of the guard type returning Self (its def path contains the
+    impl's lifetime name, so it is looked up by type and signature)."""
+    c = [d for d, fn in f.fns.items() if fn.get("has_body") and not fn.get("impl_trait") and fn.get("impl_self") is not None and
+         f.ty(fn["impl_self"]).is_adt(GUARD) and f.ty(fn["output"]).is_adt(GUARD)]
+    return f.body(c[0]) if len(c) == 1 else None
 
 
 def collector_field_ops(f):
@@ -148,9 +163,17 @@ def counters(run, f):
     cfg = cfg_of(rm)
     tr = tracer_of(rm)
     rets = cfg.exits(("return",))
+    cas_form = None
     for fld, (meth, fnn) in want.items():
         ws = by.get(fld, [])
         ok_ = len(ws) == 1 and ws[0][0] == meth and ws[0][1] == fnn
+        if not ok_ and meth == "fetch_update" and len(ws) == 1 and ws[0][0] in ("compare_exchange", "compare_exchange_weak") and ws[0][1] == fnn:
+            # the definition of fetch_update written out: load; loop { CAS(cur, f(cur)) => Ok: leave, Err(seen): cur = seen }
+            cas_form = _cas_loop(run, f, rm, cfg, tr, ws[0][3], rets)
+            if cas_form is not None:
+                run.ok("O20.3", "writers:%s" % fld, "only writer: a compare-exchange retry loop in %s" % fnn)
+                run.ok("O20.3", "every-record-updates:%s" % fld, "the loop is left only through a successful exchange")
+                continue
         run.require(ok_, "O20.3", "writers:%s" % fld, "%s is written by %s (expected only %s in %s)" % (fld, [(m, n) for m, n, _, _ in ws], meth, fnn), "only writer: %s in %s" % (meth, fnn))
         if ok_:
             blk = ws[0][3]
@@ -162,6 +185,16 @@ def counters(run, f):
     # the same duration feeds max and total
     fm = [w for w in by.get("max_processing_nanos", []) if w[0] == "fetch_max"]
     fu = [w for w in by.get("total_processing_nanos", []) if w[0] == "fetch_update"]
+    if fm and cas_form is not None and not fu:
+        vmax = strip_wrappers(tr.norm(tr.call_args(fm[0][3].idx)[1]))
+        from_param = _derives_from(tr, vmax, ("param", 2))
+        conv = sorted(_calls_in(tr, vmax))
+        lossy = [c for c in conv if c.split("::")[-1] not in ("as_nanos", "min", "try_from", "try_into", "unwrap_or", "from", "into", "saturating_add", "clamp")]
+        run.require(not lossy and any(c.endswith("as_nanos") for c in conv), "O20.3", "duration-conversion-total",
+                    "the recorded value is computed from the duration through %s: not the total duration in nanoseconds (e.g. whole seconds would be lost)" % (lossy or conv),
+                    "recorded value = duration.as_nanos() (saturated), the total duration")
+        run.require(strip_wrappers(cas_form) == vmax and from_param, "O20.3", "same-duration-everywhere", "max and total are not updated with the same value derived from the recorded duration (max gets %s, total adds %s)" % (show(vmax), show(cas_form)),
+                    "total += nanos (saturating, CAS loop) and max = max(max, nanos) with nanos derived from the duration argument")
     if fm and fu:
         vmax = strip_wrappers(tr.norm(tr.call_args(fm[0][3].idx)[1]))
         clos = tr.norm(tr.call_args(fu[0][3].idx)[3])
@@ -187,6 +220,40 @@ def counters(run, f):
                     "recorded value = duration.as_nanos() (saturated), the total duration")
         run.require(same and sat and from_param, "O20.3", "same-duration-everywhere", "max and total are not updated with the same value derived from the recorded duration (max gets %s)" % show(vmax),
                     "total += nanos (saturating) and max = max(max, nanos) with nanos derived from the duration argument")
+
+
+def _cas_loop(run, f, rm, cfg, tr, blk, rets):
+    """Recognises `loop { match a.compare_exchange*(cur, cur.saturating_add(x), ..) { Ok(_) => break, Err(seen) => cur = seen } }`.
+    Returns the term of x (the amount added) or None."""
+    args = [tr.norm(a) for a in tr.call_args(blk.idx)]
+    if len(args) < 3:
+        return None
+    cur, new = strip_wrappers(args[1]), strip_wrappers(args[2])
+    if not (new[0] == "call" and new[2].endswith("saturating_add")):
+        return None
+    aa = [strip_wrappers(tr.norm(x)) for x in tr.call_args(new[1])]
+    if len(aa) != 2 or aa[0] != cur:
+        return None
+    # cur: the initial load of the same field, or what a failed exchange observed
+    fld = strip_refs(args[0])
+    members = cur[1] if cur[0] == "phi" else (cur,)
+    for m in members:
+        m = strip_wrappers(m)
+        is_load = m[0] == "call" and m[2].endswith("::load") and strip_refs(tr.norm(tr.call_args(m[1])[0])) == fld
+        is_seen = m[0] == "field" and m[2][0] == "downcast" and m[2][1] == "Err" and strip_wrappers(m[2][2]) == ("call", blk.idx, callee(blk.term))
+        if not (is_load or is_seen):
+            return None
+    # the loop is left only through the Ok arm: from the Err arm no return is reachable without another exchange
+    if not cfg.in_cycle(blk.idx):
+        return None
+    nxt = rm.blocks[blk.term["target"]]
+    if nxt.term["k"] != "switch":
+        return None
+    arms = {int(v): b2 for v, b2 in nxt.term["arms"]}
+    err_t = arms.get(1, nxt.term["otherwise"])
+    if any(r in cfg.reachable_from(err_t, avoid={blk.idx}) or r == err_t for r in rets):
+        return None
+    return aa[1]
 
 
 def _derives_from(tr, t, leaf, depth=0):
@@ -270,29 +337,31 @@ def snapshot_agrees(run, f):
     if not run.require(ret[0] == "agg" and ret[1][0] == "adt" and ret[1][1].endswith("MetricsSnapshot"), "O20.4", "snapshot-aggregate", "snapshot() does not build a MetricsSnapshot", "builds MetricsSnapshot"):
         return
     names = ret[1][3]
-    sdec = decisions(str_, sb)
-    adec = set()
-    for nm, val in zip(names, ret[2]):
+    # path-wise denotations (pathsem): value of each snapshot field per path, with the branch decisions and their polarity
+    import pathsem
+    try:
+        spaths = pathsem.PathEval(f, sb).run()
+    except pathsem.TooComplex as e:
+        run.fail("O20.4", "snapshot-denotation", "snapshot() is not a loop-free computation (%s)" % e)
+        return
+    for i, nm in enumerate(names):
         ab = f.body(MC + "::" + nm)
         if not run.require(ab is not None, "O20.4", "accessor-present:%s" % nm, "no accessor MetricsCollector::%s for snapshot field" % nm, "found"):
             continue
-        atr = tracer_of(ab)
-        s1 = shape(str_, val)
-        s2 = shape(atr, atr.norm(atr.local(0)))
-        if s1 == ("call", MC + "::" + nm, (("param", 1),)):
-            # snapshot() delegates this field to the accessor itself: agreement by construction
+        def proj(t, i=i):
+            return t[3][i] if t[0] == "agg" and str(t[1]).endswith("MetricsSnapshot") and i < len(t[3]) else ("?", t)
+        sden = pathsem.reduce((c, proj(v)) for c, v, _ in spaths)
+        delegated = sden == frozenset({(frozenset(), ("callv", MC + "::" + nm, (("param", 1),)))}) or sden == frozenset({(frozenset(), ("callv", MC + "::" + nm, (("ref", ("param", 1)),)))})
+        if delegated:
             run.ok("O20.4", "snapshot-equals-accessor:%s" % nm, "snapshot() calls the accessor")
-            run.ok("O20.4", "snapshot-guards-equal-accessor:%s" % nm, "snapshot() calls the accessor")
-            sdec = sdec | decisions(atr, ab)
-            adec |= decisions(atr, ab)
             continue
-        run.require(s1 == s2, "O20.4", "snapshot-equals-accessor:%s" % nm, "snapshot().%s is computed as %s but %s() as %s" % (nm, s1, nm, s2), "same expression tree as the accessor")
-        d = decisions(atr, ab)
-        adec |= d
-        run.require(d <= sdec, "O20.4", "snapshot-guards-equal-accessor:%s" % nm, "%s() branches on %s, which snapshot() does not (snapshot branches on %s)" % (nm, sorted(map(str, d - sdec)), sorted(map(str, sdec))),
-                    "every branch condition of the accessor is a branch condition of snapshot()")
-    run.require(sdec <= adec, "O20.4", "snapshot-guards-equal-accessors", "snapshot() branches on %s, which no accessor does (accessors branch on %s)" % (sorted(map(str, sdec - adec)), sorted(map(str, adec))),
-                "every branch condition of snapshot() is a branch condition of the accessor computing that field")
+        try:
+            aden = pathsem.denotation(f, ab)
+        except pathsem.TooComplex as e:
+            run.fail("O20.4", "snapshot-equals-accessor:%s" % nm, "%s() is not a loop-free computation (%s)" % (nm, e))
+            continue
+        run.require(sden == aden, "O20.4", "snapshot-equals-accessor:%s" % nm, "snapshot().%s is { %s } but %s() is { %s }" % (nm, pathsem.show(sden), nm, pathsem.show(aden)),
+                    "same value under the same conditions as the accessor: %s" % pathsem.show(aden)[:160])
     # ActorRef metric methods forward
     for nm in list(names) + ["metrics"]:
         d = "actor_ref::ActorRef::<T>::" + nm
